@@ -87,6 +87,10 @@ class FitWorld(object):
             from kafe2.fit.xy.cost import XYCostFunction_Chi2
 
             cost = {"xy": XYCostFunction_Chi2, "indexed": IndexedCostFunction_Chi2, "hist": HistCostFunction_Chi2}[self.ftype](add_determinant_cost=False)
+        elif cost == "chi2:axes_y":  # documented option of the xy cost objects: only the y uncertainties enter (x sources declared but not used)
+            from kafe2.fit.xy.cost import XYCostFunction_Chi2
+
+            cost = XYCostFunction_Chi2(axes_to_use="y")
         with warnings.catch_warnings():
             warnings.simplefilter("ignore")
             if self.ftype == "xy":
@@ -305,7 +309,7 @@ class FitWorld(object):
         if self.ftype == "unbinned":
             return -2.0 * float(np.sum(np.log(self.ref_model(pv)))) + self.ref_constraint_cost(pv)
         m = self.ref_model(pv)
-        V_ = self.ref_covs(pv if cov_pv is None else cov_pv)["total"]
+        V_ = self.ref_covs(pv if cov_pv is None else cov_pv)["y_total" if self.cost_id == "chi2:axes_y" else "total"]
         c, det = ref.core_cost(self.cost_id, d, d if model_is_data else m, V_, implicit_no_errors=self.implicit_no_errors)
         if not with_det:
             c -= det
